@@ -70,11 +70,11 @@ func runC11(c *core.Ctx) {
 	c.Doc("emit-paced", 1, "every iteration passes exactly once through time.Sleep(frequency) before Apply")
 	if s := stageOf(c, "unfold-step", "pipe", "Unfold"); s != nil {
 		unfoldStep(c, s)
-		stageLifecycleRules(c, s, lifecycleOpts{only: "closing"})
+		stageLifecycleRules(c, s, lifecycleOpts{})
 	}
 	if s := stageOf(c, "emit-index", "pipe", "Emit"); s != nil {
 		emitRules(c, s)
-		stageLifecycleRules(c, s, lifecycleOpts{only: "closing"})
+		stageLifecycleRules(c, s, lifecycleOpts{})
 	}
 }
 
@@ -87,32 +87,23 @@ func unfoldStep(c *core.Ctx, s *Stage) {
 	g := s.Gos[0]
 	h := g.An.Headers[0]
 	out := outChan(s, 0)
-	// the seed cell: captured parameter that is neither ctx, cap nor the function
-	var seed *ir.Term
-	var seedParam *ir.Term
-	for _, p := range s.Outer.AllPaths() {
-		for _, st := range p.Events(ir.KStore) {
-			if st.A[1].Op == "param" && st.A[0].Op == "alloc" && st.A[1].Src == ssa.Value(s.Fn.Params[2]) {
-				seed, seedParam = st.A[0], st.A[1]
-			}
-		}
-	}
-	if seed == nil {
-		c.Undecided("unfold-step", name, s.Fn.Pos(), "seed cell not found")
+	// the seed: the loop-carried value (register or cell) that enters the loop with the value of the seed parameter
+	seedParam := &ir.Term{Op: "param", Aux: s.Fn.Params[2].Name()}
+	q, qname, found := loopQuantity(g.An, h, seedParam)
+	if !found {
+		c.Undecided("unfold-step", name, s.Fn.Pos(), "no single loop-carried seed initialised from parameter %s found (%s)", s.Fn.Params[2].Name(), qname)
 		return
 	}
 	ok := true
 	for _, p := range g.An.Segs[nil] {
-		if p.To != h || !ir.Same(p.End.MemAt(seed), seedParam) {
-			ok = false
-			c.Fail("unfold-step", name, g.Fn.Pos(), "the loop is not entered with the seed parameter unchanged (the seed itself must be delivered first)")
+		if p.To != h {
+			continue
 		}
 		if len(p.Events(ir.KCall)) != 0 {
 			ok = false
 			c.Fail("unfold-step", name, g.Fn.Pos(), "the step function is applied before the seed is delivered")
 		}
 	}
-	q := CellQuantity(g.An, seed)
 	for _, p := range g.An.Segs[h] {
 		cur := q.StartSym(p)
 		sendIdx, applyIdx := -1, -1
@@ -281,27 +272,34 @@ func runC12(c *core.Ctx) {
 	ok := l != nil && l.RangeOver != nil && isParamTerm(l.RangeOver, in)
 	why := "the spawn loop is not a range over the inputs"
 	if ok {
-		sym := s.Outer.Start[l.Header].Reg(l.Phi)
-		idx := &ir.Term{Op: "bin", Aux: "+", Args: sorted2(sym, ir.Const("1"))}
+		// exactly one argument of the go statement is the input channel of this iteration
 		a := w.Spawn.A
-		ok = len(a) == 1 && (ir.Same(a[0], &ir.Term{Op: "index", Args: []*ir.Term{l.RangeOver, idx}}) ||
-			(a[0].Op == "load" && a[0].Args[0].Op == "iaddr" && ir.Same(a[0].Args[0].Args[0], l.RangeOver) && ir.Same(a[0].Args[0].Args[1], idx)))
-		why = "the copier is not started with the range element of the same iteration"
-		if len(a) == 1 && !ok {
-			why += ": " + short(a[0])
+		nElem := 0
+		for _, x := range a {
+			if l.IsElem(s.Outer, x) {
+				nElem++
+			} else if isChanType(x.Typ) && isInputChan(x) {
+				nElem += 100 // another input channel (e.g. a fixed in[0]) handed to the copier
+			}
 		}
+		ok = nElem == 1
+		why = "the copier is not started with (exactly) the input channel of the same iteration"
 	}
 	if ok {
-		var add *ir.Step
-		for _, p := range s.Outer.AllPaths() {
+		// the WaitGroup is incremented once per copier (Add(len(in)) ahead of the loop, or Add(1) per iteration)
+		var wg *ir.Term
+		for _, p := range closers[0].An.AllPaths() {
 			for i := range p.Steps {
-				if isWgAdd(&p.Steps[i]) {
-					add = &p.Steps[i]
+				if isWgWait(&p.Steps[i]) {
+					wg = p.Steps[i].A[0]
 				}
 			}
 		}
-		ok = add != nil && add.A[1].Op == "len" && isParamTerm(add.A[1].Args[0], in)
-		why = "wg.Add's argument is not len(inputs)"
+		if wg == nil {
+			ok, why = false, "the closer does not wait for the copiers"
+		} else if _, w2 := addAccounts(s.Outer, wg, w, l.Trip); w2 != "" {
+			ok, why = false, w2
+		}
 	}
 	c.Check(ok, "copier-per-input", name, w.Spawn.Pos(), "for _, c := range in { go copy(c) }; wg.Add(len(in))", "%s", why)
 
